@@ -52,6 +52,7 @@ type Login struct {
 	Issuer      string // override issuer
 	Audience    string // override audience
 	ExpiredID   bool   // exp in the past
+	ExpiredBy   time.Duration // when set with ExpiredID: how long ago the token expired (default: ten minutes)
 	AccessToken string // filled in
 }
 
@@ -182,8 +183,12 @@ func (p *IdP) token(w http.ResponseWriter, r *http.Request) {
 		claims["aud"] = l.Audience
 	}
 	if l.ExpiredID {
-		claims["exp"] = now.Add(-10 * time.Minute).Unix()
-		claims["iat"] = now.Add(-20 * time.Minute).Unix()
+		by := l.ExpiredBy
+		if by == 0 {
+			by = 10 * time.Minute
+		}
+		claims["exp"] = now.Add(-by).Unix()
+		claims["iat"] = now.Add(-by - 10*time.Minute).Unix()
 	}
 	for k, v := range l.Claims {
 		claims[k] = v
